@@ -34,7 +34,7 @@ pub fn run(ctx: &Ctx) -> i32 {
             for _ in (k + 1)..n {
                 p.push(None, Stmt::Not(2, 2));
             }
-            for dest in ["absent", "existing"] {
+            for dest in ["absent", "existing", "default-absent", "default-existing"] {
                 cases.push(Case { name: format!("fail-at-{k}-of-{n}"), text: print_plain(&p), image: None, dest: dest.into() });
             }
         }
@@ -57,7 +57,7 @@ pub fn run(ctx: &Ctx) -> i32 {
     valid.push(None, Stmt::Stringz("data".into()));
     let valid_text = print_plain(&valid);
     let valid_image = encode(&valid, false).unwrap().raw();
-    for dest in ["absent", "existing", "devfull", "missing-dir", "readonly-dir", "is-a-directory"] {
+    for dest in ["absent", "existing", "default-absent", "default-existing", "devfull", "missing-dir", "readonly-dir", "is-a-directory"] {
         cases.push(Case { name: "valid".into(), text: valid_text.clone(), image: Some(valid_image.clone()), dest: dest.into() });
     }
     cases.push(Case { name: "valid-empty".into(), text: "".into(), image: Some(vec![0x3000]), dest: "existing".into() });
@@ -83,6 +83,12 @@ pub fn run(ctx: &Ctx) -> i32 {
                 sub.write("out.lc3", OLD);
                 ("out.lc3".into(), Some(dir.join("out.lc3")))
             }
+            // no destination argument: the default is <source stem>.lc3 in the working directory
+            "default-absent" => (String::new(), Some(dir.join("in.lc3"))),
+            "default-existing" => {
+                sub.write("in.lc3", OLD);
+                (String::new(), Some(dir.join("in.lc3")))
+            }
             "devfull" => ("/dev/full".into(), None),
             "missing-dir" => ("nodir/out.lc3".into(), Some(dir.join("nodir/out.lc3"))),
             "readonly-dir" => {
@@ -106,6 +112,8 @@ pub fn run(ctx: &Ctx) -> i32 {
             let spec = format!("inject=write:error=ENOSPC:when={k}");
             let p = dir.join("out.lc3");
             sub.run_with(&["compile", "in.asm", &dest_arg], b"", &[], Some(&["strace", "-f", "-qq", "-o", "/dev/null", "-P", p.to_str().unwrap(), "-e", "trace=write", "-e", &spec]))
+        } else if dest_arg.is_empty() {
+            sub.run(&["compile", "in.asm"], b"")
         } else {
             sub.run(&["compile", "in.asm", &dest_arg], b"")
         };
@@ -174,7 +182,7 @@ pub fn run(ctx: &Ctx) -> i32 {
         ctx,
         acc,
         Level { category: "fault_enumeration", bfs: None },
-        "fault enumeration against the real binary: (i) programs of n = 1..4 (thorough 6) statements whose only error is an out-of-range label reference at EVERY emission position k, and lexer / parser / backpatch errors after n-1 good statements, each with the destination absent and pre-existing with known bytes; (ii) a valid program with destination absent, pre-existing, /dev/full, a path in a missing directory, a path in a read-only directory, a directory; (iii) a valid program with EVERY write(2) to the destination failed with ENOSPC, one at a time and from the K-th on (strace -e inject). Oracle: exit 0 => the destination holds the complete reference object file; exit != 0 => for (i) and (ii) the destination is byte-identical to before (absent stays absent); for (iii) only the first half is asserted. non-trivial = distinct fault cases that satisfied the oracle",
+        "fault enumeration against the real binary: (i) programs of n = 1..4 (thorough 6) statements whose only error is an out-of-range label reference at EVERY emission position k, and lexer / parser / backpatch errors after n-1 good statements, each with the destination absent and pre-existing with known bytes, given explicitly and defaulted (<stem>.lc3); (ii) a valid program with destination absent, pre-existing, /dev/full, a path in a missing directory, a path in a read-only directory, a directory; (iii) a valid program with EVERY write(2) to the destination failed with ENOSPC, one at a time and from the K-th on (strace -e inject). Oracle: exit 0 => the destination holds the complete reference object file; exit != 0 => for (i) and (ii) the destination is byte-identical to before (absent stays absent); for (iii) only the first half is asserted. non-trivial = distinct fault cases that satisfied the oracle",
         true,
         &["success-with-complete-file", "failure-leaves-destination"],
         &["strace fault injection models a device that stops accepting data mid-stream", "running as root: the read-only directory case may be writable and then counts as a plain success"],
